@@ -380,10 +380,10 @@ def thread_programs(rng, store):
                 ops.append({'op': 'add_blank', 'g': rng.choice(['G0', 'G1']), 'nid': f't{t}b{k}'})
             elif r < 0.8:
                 ops.append({'op': 'import', 'g': f'I{t}{k}', 'desc': small(rng, rng.randrange(1, 4), prefix=f't{t}i{k}n')})
-            elif r < 0.92:
+            elif r < 0.88:
                 ops.append({'op': 'clone', 'g': 'G0', 'to': f'C{t}{k}'})
             else:
-                ops.append({'op': 'reimport', 'g': 'G1' if store == 'shared' else f'R{t}{k}',
+                ops.append({'op': 'reimport', 'g': rng.choice(['G1', 'G2', 'G2']) if store == 'shared' else f'R{t}{k}',
                             'desc': small(rng, 2, prefix=f't{t}r{k}n')})
         if rng.random() < 0.3:
             # an import the store refuses (a node without NodeID): the exception path of the critical section, pre-empted like any other
@@ -407,7 +407,11 @@ def expected_final(progs, base):
             elif op['op'] in ('import', 'reimport'):
                 exp[op['g']] = {x['id'] for x in op['desc']['nodes']} | (set() if op['op'] == 'import' else set())
     for g in reimported:
-        dep.add(g)          # adds racing with a replace: content depends on the order
+        # adds racing with a replace, or two replaces: content depends on the order.  A graph replaced by one thread and touched
+        # by nobody else ends up with exactly the nodes of the replacement.
+        touching = [op for p in progs for op in p if op.get('g') == g]
+        if len(touching) > 1:
+            dep.add(g)
     for c in clones:
         dep.add(c['to'])    # snapshot of G0 at some moment
     return exp, dep
@@ -417,7 +421,8 @@ def run_schedule(ctx, env, store, progs, plan=None, chooser=None):
     imp, cls = env.imps[store]
     env.set_sched(None)
     env.reset()
-    base_desc = {'G0': small(__import__('random').Random(5), 2, prefix='g0n'), 'G1': small(__import__('random').Random(6), 2, prefix='g1n')}
+    base_desc = {'G0': small(__import__('random').Random(5), 2, prefix='g0n'), 'G1': small(__import__('random').Random(6), 2, prefix='g1n'),
+                 'G2': small(__import__('random').Random(7), 3, prefix='g2n')}
     for g, d in base_desc.items():
         imp.import_graph_from_string(graph_string=graphml_of(d), graph_id=g)
     env.mons[store].problems.clear()
